@@ -2,6 +2,7 @@ package props
 
 import (
 	"fmt"
+	"math"
 	"runtime"
 	"sync"
 	"sync/atomic"
@@ -24,7 +25,145 @@ import (
 
 func init() { register("C09", runC09) }
 
+// c09sweep: ALL sequences of up to 6 (KeyedMutex) / 5 (KeyedRWMutex) sequential calls
+// over two keys from a fresh value. Calls per key: acquire (LockKey when the key is
+// free, otherwise TryLockKey, which must fail), for the RW type also read-acquire
+// (RLockKey when no writer is inside, otherwise TryRLockKey, which must fail), release
+// one holder (skipped when nobody holds the key), ClearKey (only when the key is free),
+// TryLockKey (must succeed exactly when the key is free). Sequential, so every result
+// is determined: what one goroutine can do to the underlying map's layout, exhaustively.
+func c09sweep(c *core.Ctx, rw bool, first int) {
+	hooksOff()
+	nOps, maxL := 8, 6
+	if rw {
+		nOps, maxL = 10, 5
+	}
+	perKey := nOps / 2
+	seqs := 0
+	for L := 1; L <= maxL; L++ {
+		total := 1
+		for i := 1; i < L; i++ {
+			total *= nOps
+		}
+		for code := 0; code < total; code++ {
+			km := &keyed{rw: rw}
+			if rw {
+				km.rwm = new(sync2.KeyedRWMutex[int])
+			} else {
+				km.m = new(sync2.KeyedMutex[int])
+			}
+			var writers, readers [2]int
+			var hist []string
+			fail := func(sig, msg string) {
+				kind := "KeyedMutex"
+				if rw {
+					kind = "KeyedRWMutex"
+				}
+				c.Violate("sweep:"+sig+"["+kind+"]", fmt.Sprintf("%s [exhaustive sequential sweep from a fresh value, calls %v]", msg, hist), map[string]any{"history": hist})
+			}
+			for x, i := code, 0; i < L; i++ {
+				op := first
+				if i > 0 {
+					op = x % nOps
+					x /= nOps
+				}
+				k, kind := op/perKey, op%perKey
+				free := writers[k] == 0 && readers[k] == 0
+				// kinds: 0 write-acquire, 1 release, 2 clear, 3 try-write, 4 (rw only) read-acquire
+				switch kind {
+				case 0:
+					if free {
+						hist = append(hist, fmt.Sprintf("LockKey(%d)", k))
+						km.acquire(kLock, k)
+						writers[k] = 1
+					} else {
+						hist = append(hist, fmt.Sprintf("TryLockKey(%d)[held]", k))
+						if km.acquire(kTryLock, k) {
+							fail("Try-succeeds-on-held-key", fmt.Sprintf("TryLockKey(%d) succeeded while the key is held (writers=%d readers=%d)", k, writers[k], readers[k]))
+							return
+						}
+					}
+				case 1:
+					switch {
+					case writers[k] > 0:
+						hist = append(hist, fmt.Sprintf("UnlockKey(%d)", k))
+						km.release(kLock, k)
+						writers[k] = 0
+					case readers[k] > 0:
+						hist = append(hist, fmt.Sprintf("RUnlockKey(%d)", k))
+						km.release(kRLock, k)
+						readers[k]--
+					}
+				case 2:
+					if free {
+						hist = append(hist, fmt.Sprintf("ClearKey(%d)", k))
+						km.clear(k)
+					}
+				case 3:
+					hist = append(hist, fmt.Sprintf("TryLockKey(%d)", k))
+					got := km.acquire(kTryLock, k)
+					if got != free {
+						fail("Try-result", fmt.Sprintf("TryLockKey(%d) returned %v; the key has writers=%d readers=%d", k, got, writers[k], readers[k]))
+						return
+					}
+					if got {
+						writers[k] = 1
+					}
+				case 4:
+					if writers[k] == 0 {
+						if readers[k] > 0 && i%2 == 1 {
+							hist = append(hist, fmt.Sprintf("TryRLockKey(%d)", k))
+							if !km.acquire(kTryRLock, k) {
+								fail("Try-result", fmt.Sprintf("TryRLockKey(%d) failed although only readers hold the key", k))
+								return
+							}
+						} else {
+							hist = append(hist, fmt.Sprintf("RLockKey(%d)", k))
+							km.acquire(kRLock, k)
+						}
+						readers[k]++
+					} else {
+						hist = append(hist, fmt.Sprintf("TryRLockKey(%d)[writer inside]", k))
+						if km.acquire(kTryRLock, k) {
+							fail("Try-succeeds-on-held-key", fmt.Sprintf("TryRLockKey(%d) succeeded while a writer holds the key", k))
+							return
+						}
+					}
+				}
+			}
+			// wind down: every holder releases; afterwards both keys must be free
+			for k := 0; k < 2; k++ {
+				for ; writers[k] > 0; writers[k]-- {
+					km.release(kLock, k)
+				}
+				for ; readers[k] > 0; readers[k]-- {
+					km.release(kRLock, k)
+				}
+				hist = append(hist, fmt.Sprintf("release-all(%d)+TryLockKey(%d)", k, k))
+				if !km.acquire(kTryLock, k) {
+					fail("Try-result", fmt.Sprintf("after every holder released key %d, TryLockKey(%d) failed", k, k))
+					return
+				}
+				km.release(kLock, k)
+			}
+			seqs++
+		}
+	}
+	c.Count("exhaustive_sweep_sequences", int64(seqs))
+	c.Count("exhaustive_sweeps_completed", 1)
+	c.NonTrivial(core.Mix(9, uint64(first), uint64(nOps)))
+}
+
 func runC09(c *core.Ctx) {
+	if c.Mode == "free" && c.Build == "plain" && c.Index < 18 {
+		// cases 0..7: KeyedMutex sweep by first call; 8..17: KeyedRWMutex
+		if c.Index < 8 {
+			c09sweep(c, false, int(c.Index))
+		} else {
+			c09sweep(c, true, int(c.Index-8))
+		}
+		return
+	}
 	switch c.Mode {
 	case "tierb":
 		c09tierb(c)
@@ -754,6 +893,91 @@ func c09free(c *core.Ctx) {
 		}
 	}
 	hooksOff()
+	// many keys on one value: while one key is write-held and (RW type) another is
+	// read-held, 1100..2600 further distinct keys are used once each - whatever
+	// housekeeping a growing key table triggers must leave the held keys held
+	if bad.Load() == nil && r.Chance(1, 4) {
+		kw, kr := nextKey, nextKey+1
+		nextKey += 2
+		km.acquire(kLock, kw)
+		if km.rw {
+			km.acquire(kRLock, kr)
+		}
+		n := r.Range(1100, 2600)
+		for i := 0; i < n; i++ {
+			k := nextKey
+			nextKey++
+			kd := kLock
+			if km.rw && i%3 == 0 {
+				kd = kRLock
+			}
+			km.acquire(kd, k)
+			km.release(kd, k)
+		}
+		if km.acquire(kTryLock, kw) {
+			flag("free:held-key-forgotten", fmt.Sprintf("TryLockKey succeeded on a key that is write-held, after %d other distinct keys had been used once each on the same value", n))
+		} else if km.rw {
+			if km.acquire(kTryLock, kr) {
+				flag("free:held-key-forgotten", fmt.Sprintf("TryLockKey succeeded on a key that a reader holds, after %d other distinct keys had been used once each on the same value", n))
+			} else if !km.acquire(kTryRLock, kr) {
+				flag("free:Try-fails", "TryRLockKey failed on a key that only a reader holds")
+			} else {
+				km.release(kRLock, kr)
+			}
+		}
+		if bad.Load() == nil {
+			km.release(kLock, kw)
+			if km.rw {
+				km.release(kRLock, kr)
+			}
+		}
+		c.Count("free_many_keys_rounds", 1)
+		c.Max("free_max_distinct_keys_on_one_value", int64(nextKey))
+	}
+	// one key used, released and cleared 300 times over, with Try checks in between
+	if bad.Load() == nil && r.Chance(1, 6) {
+		k := nextKey
+		nextKey++
+		for i := 0; i < 300 && bad.Load() == nil; i++ {
+			kd := kLock
+			if km.rw && i%2 == 1 {
+				kd = kRLock
+			}
+			km.acquire(kd, k)
+			if km.acquire(kTryLock, k) {
+				flag("free:Try-succeeds-on-held-key", fmt.Sprintf("cycle %d of lock/Try/unlock/ClearKey on one key: TryLockKey succeeded while the key is held", i+1))
+				break
+			}
+			km.release(kd, k)
+			if !km.acquire(kTryLock, k) {
+				flag("free:Try-fails", fmt.Sprintf("cycle %d of lock/Try/unlock/ClearKey on one key: TryLockKey failed on the released key", i+1))
+				break
+			}
+			km.release(kLock, k)
+			km.clear(k)
+		}
+		c.Count("free_use_clear_storms", 1)
+	}
+	// keys that are == although they look different: +0.0 and -0.0 are ONE key
+	if bad.Load() == nil && r.Chance(1, 4) {
+		pz, nz := 0.0, math.Copysign(0, -1)
+		var fm sync2.KeyedMutex[float64]
+		var frw sync2.KeyedRWMutex[float32]
+		fm.LockKey(pz)
+		frw.RLockKey(float32(nz))
+		if fm.TryLockKey(nz) {
+			flag("free:equal-keys-two-mutexes", "KeyedMutex[float64]: LockKey(+0.0) is held and TryLockKey(-0.0) succeeded; +0.0 == -0.0 is one key")
+		} else if frw.TryLockKey(float32(pz)) {
+			flag("free:equal-keys-two-mutexes", "KeyedRWMutex[float32]: RLockKey(-0.0) is held and TryLockKey(+0.0) succeeded; +0.0 == -0.0 is one key")
+		} else {
+			fm.UnlockKey(nz)
+			frw.RUnlockKey(float32(pz))
+			if !fm.TryLockKey(pz) || !frw.TryLockKey(float32(nz)) {
+				flag("free:Try-fails", "TryLockKey failed on a float key that had just been released through its other zero")
+			}
+		}
+		c.Count("free_signed_zero_key_rounds", 1)
+	}
 	c.Count("free_cases", 1)
 	c.Count("free_"+kind, 1)
 	c.Count("free_policy_"+policy, 1)
